@@ -25,6 +25,8 @@ struct Router {
     table: Vec<(usize, Option<u32>, usize)>,
     /// further entries with other prefix lengths: (base, bits, gateway, slot); host routes, aggregates, default routes
     extra: Vec<(u32, u32, Option<u32>, usize)>,
+    /// entries that were configured first and then replaced by an entry of `extra` for the same prefix (added before them)
+    shadowed: Vec<(u32, u32, Option<u32>, usize)>,
 }
 
 fn subnet_base(i: usize) -> u32 {
@@ -53,7 +55,7 @@ impl Check for Routing {
         "C16"
     }
     fn rule(&self) -> String {
-        "generated: 2..5 subnets (10.(20+i).0.0/24) joined by 1..4 ArpRouters as a line, a star or a ring, 1..2 hosts per subnet (Udp, Ipv4, Arp with subnet information pointing at a router interface, recording application); per-router static tables that are shortest-path correct (/24 entries), then optionally damaged: an entry removed (hole), two neighbouring routers pointing at each other (loop), or a gateway nobody claims; in half of the cases 1..3 further entries of other prefix lengths (/32 host routes, /31 /30 /28 blocks, /16 /12 aggregates, default routes; a /31 together with a /32 inside it) towards a router interface or an unclaimed address on any attached network, or 'deliver directly' on the interface that holds the destination (on another interface in 1/16 of the cases only: open known finding), so the route is decided by longest-prefix match; 1..6 tagged UDP datagrams between host pairs; random per-frame delays reorder ARP and data frames; oracle: an independent hop-by-hop walk over the tables gives the expected fate: for a deliverable route exactly one delivery, to the destination host's application only, payload unchanged, and the IPv4 frames carrying the tag traverse exactly the expected network sequence with TTL decreasing by 1 per router hop from the first observed TTL; otherwise no application receives it, the number of frames carrying the tag is at most the first TTL, no two of them have the same TTL on the same network, and the wire is silent at the end. non-trivial: a delivered datagram crossed >= 2 routers, or the route has a hole or a loop. distinct: hash of decoded topology".into()
+        "generated: 2..5 subnets (10.(20+i).0.0/24) joined by 1..4 ArpRouters as a line, a star or a ring, 1..2 hosts per subnet (Udp, Ipv4, Arp with subnet information pointing at a router interface, recording application); per-router static tables that are shortest-path correct (/24 entries), then optionally damaged: an entry removed (hole), two neighbouring routers pointing at each other (loop), or a gateway nobody claims; in half of the cases 1..3 further entries of other prefix lengths (/32 host routes, /31 /30 /28 blocks, /16 /12 aggregates, default routes; a /31 together with a /32 inside it; the same prefix configured twice, the later entry counts) towards a router interface or an unclaimed address on any attached network, or 'deliver directly' on the interface that holds the destination (on another interface in 1/16 of the cases only: open known finding), so the route is decided by longest-prefix match; 1..6 tagged UDP datagrams between host pairs; random per-frame delays reorder ARP and data frames; oracle: an independent hop-by-hop walk over the tables gives the expected fate: for a deliverable route exactly one delivery, to the destination host's application only, payload unchanged, and the IPv4 frames carrying the tag traverse exactly the expected network sequence with TTL decreasing by 1 per router hop from the first observed TTL; otherwise no application receives it, the number of frames carrying the tag is at most the first TTL, no two of them have the same TTL on the same network, and the wire is silent at the end. non-trivial: a delivered datagram crossed >= 2 routers, or the route has a hole or a loop. distinct: hash of decoded topology".into()
     }
     fn assumptions(&self) -> Vec<String> {
         vec!["all networks have the same (unlimited) MTU; gateways in the tables are router interfaces on the outgoing network or unclaimed addresses".into()]
@@ -68,12 +70,12 @@ impl Check for Routing {
             _ => 2 + e.choose(4),
         };
         let mut routers: Vec<Router> = match shape {
-            1 => vec![Router { nets: (0..ns).collect(), table: vec![], extra: vec![] }],
-            0 => (0..ns - 1).map(|i| Router { nets: vec![i, i + 1], table: vec![], extra: vec![] }).collect(),
+            1 => vec![Router { nets: (0..ns).collect(), table: vec![], extra: vec![], shadowed: vec![] }],
+            0 => (0..ns - 1).map(|i| Router { nets: vec![i, i + 1], table: vec![], extra: vec![], shadowed: vec![] }).collect(),
             _ => {
-                let mut v: Vec<Router> = (0..ns - 1).map(|i| Router { nets: vec![i, i + 1], table: vec![], extra: vec![] }).collect();
+                let mut v: Vec<Router> = (0..ns - 1).map(|i| Router { nets: vec![i, i + 1], table: vec![], extra: vec![], shadowed: vec![] }).collect();
                 if ns >= 3 {
-                    v.push(Router { nets: vec![ns - 1, 0], table: vec![], extra: vec![] });
+                    v.push(Router { nets: vec![ns - 1, 0], table: vec![], extra: vec![], shadowed: vec![] });
                 }
                 v
             }
@@ -222,7 +224,10 @@ impl Check for Routing {
                 };
                 let mask = if bits == 0 { 0 } else { u32::MAX << (32 - bits) };
                 let base = x & mask;
-                routers[r].extra.retain(|t| !(t.0 == base && t.1 == bits));
+                // the same prefix configured twice: the later entry replaces the earlier one
+                let (old, keep): (Vec<_>, Vec<_>) = routers[r].extra.iter().cloned().partition(|t| t.0 == base && t.1 == bits);
+                routers[r].shadowed.extend(old);
+                routers[r].extra = keep;
                 routers[r].extra.push((base, bits, gw, slot));
                 extra_kinds.push(match bits {
                     32 => "host_route",
@@ -236,7 +241,9 @@ impl Check for Routing {
                     let via2 = routers[r].nets[slot2];
                     let others2: Vec<usize> = (0..nr).filter(|y| *y != r && routers[*y].nets.contains(&via2)).collect();
                     let gw2 = if others2.is_empty() { if via2 == ds || lift_wrong_interface { None } else { Some(subnet_base(via2) + 200) } } else { Some(router_ip(via2, others2[e.choose(others2.len())])) };
-                    routers[r].extra.retain(|t| !(t.0 == x && t.1 == 32));
+                    let (old, keep): (Vec<_>, Vec<_>) = routers[r].extra.iter().cloned().partition(|t| t.0 == x && t.1 == 32);
+                    routers[r].shadowed.extend(old);
+                    routers[r].extra = keep;
                     routers[r].extra.push((x, 32, gw2, slot2));
                     extra_kinds.push("host_route_inside_31");
                 }
@@ -389,7 +396,7 @@ impl Check for Routing {
             for (d, gw, slot) in &rt.table {
                 table.add(Ipv4Net::new(ip(subnet_base(*d)), Ipv4Mask::from_bitcount(24)), (gw.map(ip), *slot as PciSlot));
             }
-            for (base, bits, gw, slot) in &rt.extra {
+            for (base, bits, gw, slot) in rt.shadowed.iter().chain(rt.extra.iter()) {
                 table.add(Ipv4Net::new(ip(*base), Ipv4Mask::from_bitcount(*bits)), (gw.map(ip), *slot as PciSlot));
             }
             let own: IpTable<Recipient> = local_ips.iter().map(|a| (*a, Recipient::new(0, None))).collect();
@@ -470,6 +477,9 @@ impl Check for Routing {
         }
         for k in extra_kinds {
             ctx.class(k);
+        }
+        if routers.iter().any(|r| !r.shadowed.is_empty()) {
+            ctx.class("prefix_configured_twice");
         }
         Ok(())
     }
